@@ -166,7 +166,11 @@ def definition(d, info_bases: dict):
     if isinstance(d, N.Decorator):
         return {"k": "decorator", "f": func(d.func)}
     if isinstance(d, N.OverloadedFuncDef):
-        return {"k": "overloaded", "impl": None if d.impl is None else func(d.impl.func if isinstance(d.impl, N.Decorator) else d.impl)}
+        # the walker takes `impl`, or the first item when there is no implementation; Decorators are unwrapped
+        node = d.impl if d.impl is not None else (d.items[0] if d.items else None)
+        if isinstance(node, N.Decorator):
+            node = node.func
+        return {"k": "overloaded", "impl": None if node is None else func(node)}
     if isinstance(d, N.ClassDef):
         return {"k": "class", "name": d.name, "fullname": d.fullname,
                 "bases": [base_expr(b, info_bases) for b in d.base_type_exprs],
